@@ -45,6 +45,8 @@ pub(super) fn from_bitwise_digits_le(v: &[u8], bits: u8) -> BigUint {
     debug_assert!(!v.is_empty() && bits <= 8 && big_digit::BITS % bits == 0);
     debug_assert!(v.iter().all(|&c| BigDigit::from(c) < (1 << bits)));
 
+    #[cfg(num_bigint_verif)]
+    crate::verif_probe::hit(crate::verif_probe::Probe::RADIX_IN_BITWISE);
     let digits_per_big_digit = big_digit::BITS / bits;
 
     let data = v
@@ -66,6 +68,8 @@ fn from_inexact_bitwise_digits_le(v: &[u8], bits: u8) -> BigUint {
     debug_assert!(!v.is_empty() && bits <= 8 && big_digit::BITS % bits != 0);
     debug_assert!(v.iter().all(|&c| BigDigit::from(c) < (1 << bits)));
 
+    #[cfg(num_bigint_verif)]
+    crate::verif_probe::hit(crate::verif_probe::Probe::RADIX_IN_INEXACT_BITWISE);
     let total_bits = (v.len() as u64).saturating_mul(bits.into());
     let big_digits = Integer::div_ceil(&total_bits, &big_digit::BITS.into())
         .to_usize()
@@ -119,6 +123,8 @@ fn from_radix_digits_be(v: &[u8], radix: u32) -> BigUint {
 
     let mut data = Vec::with_capacity(big_digits.to_usize().unwrap_or(0));
 
+    #[cfg(num_bigint_verif)]
+    crate::verif_probe::hit(crate::verif_probe::Probe::RADIX_IN_CHUNKED);
     let (base, power) = get_radix_base(radix);
     let radix = radix as BigDigit;
 
@@ -307,6 +313,10 @@ fn high_bits_to_u64(v: &BigUint) -> u64 {
                     // XXX Conversion is useless if already 64-bit.
                     #[allow(clippy::useless_conversion)]
                     let masked = u64::from(*d) << (64 - (digit_bits - bits_want) as u32);
+                    #[cfg(num_bigint_verif)]
+                    if masked != 0 {
+                        crate::verif_probe::hit(crate::verif_probe::Probe::FLOAT_STICKY);
+                    }
                     ret |= (masked != 0) as u64;
                 }
 
@@ -601,6 +611,8 @@ impl From<bool> for BigUint {
 pub(super) fn to_bitwise_digits_le(u: &BigUint, bits: u8) -> Vec<u8> {
     debug_assert!(!u.is_zero() && bits <= 8 && big_digit::BITS % bits == 0);
 
+    #[cfg(num_bigint_verif)]
+    crate::verif_probe::hit(crate::verif_probe::Probe::RADIX_OUT_BITWISE);
     let last_i = u.data.len() - 1;
     let mask: BigDigit = (1 << bits) - 1;
     let digits_per_big_digit = big_digit::BITS / bits;
@@ -629,6 +641,8 @@ pub(super) fn to_bitwise_digits_le(u: &BigUint, bits: u8) -> Vec<u8> {
 fn to_inexact_bitwise_digits_le(u: &BigUint, bits: u8) -> Vec<u8> {
     debug_assert!(!u.is_zero() && bits <= 8 && big_digit::BITS % bits != 0);
 
+    #[cfg(num_bigint_verif)]
+    crate::verif_probe::hit(crate::verif_probe::Probe::RADIX_OUT_INEXACT_BITWISE);
     let mask: BigDigit = (1 << bits) - 1;
     let digits = Integer::div_ceil(&u.bits(), &u64::from(bits))
         .to_usize()
@@ -685,6 +699,8 @@ pub(super) fn to_radix_digits_le(u: &BigUint, radix: u32) -> Vec<u8> {
     // Estimate how big the result will be, so we can pre-allocate it.
     let mut res = Vec::with_capacity(radix_digits.to_usize().unwrap_or(0));
 
+    #[cfg(num_bigint_verif)]
+    crate::verif_probe::hit(crate::verif_probe::Probe::RADIX_OUT_CHUNKED);
     let mut digits = u.clone();
 
     // X86 DIV can quickly divide by a full digit, otherwise we choose a divisor
@@ -701,6 +717,8 @@ pub(super) fn to_radix_digits_le(u: &BigUint, radix: u32) -> Vec<u8> {
     // The threshold for this was chosen by anecdotal performance measurements to
     // approximate where this starts to make a noticeable difference.
     if digits.data.len() >= 64 {
+        #[cfg(num_bigint_verif)]
+        crate::verif_probe::hit(crate::verif_probe::Probe::RADIX_OUT_BIG_BASE);
         let mut big_base = BigUint::from(base);
         let mut big_power = 1usize;
 
